@@ -4,7 +4,7 @@
    redone on the old leaf exactly as in the replay from the old file, in LSN order. *)
 From Coq Require Import Arith Lia Bool List NArith Permutation.
 From Mkdb Require Import Model.Engine Proofs.TreeProofs Proofs.StoreInv Proofs.CrashBase Proofs.CrashPages
-  Proofs.CrashRedo Proofs.CrashLog Proofs.CrashMain Proofs.CrashPrefix Proofs.CrashHist Gen.Params.
+  Proofs.CrashRedo Proofs.CrashLog Proofs.CrashMain Proofs.CrashPrefix Gen.Params.
 Import ListNotations.
 Local Open Scope N_scope.
 
@@ -671,23 +671,23 @@ Lemma sim_step W fin s g w s' :
 Proof.
   intros Hfin Hn Hg Hnf Hrep Hip Hmono.
   pose proof (lp_mix W fin Hfin) as Hlp. set (sg := mixfun W fin) in *.
-  unfold replay_one in *. rewrite bump_forest in *.
+  unfold replay_one in *. fold (pre s w) in *. fold (pre g w) in *. rewrite pre_forest in *.
   destruct (find_node (w_page w) (forest s)) as [[b n]|] eqn:Ef; [|discriminate].
   rewrite Hg, (find_node_mapF sg _ _ _ _ Hlp Hn Ef).
   pose proof (find_node_sound _ _ _ _ Ef) as Hpi.
   destruct Hpi as (t0 & Ht0 & Hin0 & Hp0 & Hb0).
   destruct (N.leb_spec (w_lsn w) (t_lsn n)) as [Hskip|Hns].
   { (* skipped in the original replay: skipped here too *)
-    inversion Hrep; subst s'. rewrite bump_forest in Hmono.
+    inversion Hrep; subst s'. rewrite pre_forest in Hmono.
     pose proof (repl_lsn_ge W fin (forest s) t0 n Hmono Ht0 Hin0) as Hge. fold sg in Hge.
     destruct (N.leb_spec (w_lsn w) (t_lsn (repl sg n))) as [_|Hbad]; [|lia].
-    eexists. split; [reflexivity|]. rewrite !bump_forest, !bump_nextFree. auto. }
+    eexists. split; [reflexivity|]. rewrite !pre_forest, !pre_nextFree. auto. }
   destruct (w_op w) eqn:Eop.
   - (* insert *)
     destruct b; [|discriminate]. cbn [negb] in *.
     destruct (page_in_root (forest s) (w_page w) n Hn (ex_intro _ t0 (conj Ht0 (conj Hin0 (conj Hp0 Hb0)))))
       as (Hnf0 & Hoffn & Hfr & Hndn).
-    rewrite bump_nextFree in *.
+    rewrite pre_nextFree in *.
     destruct (tree_insert ML MI PS MV n (w_cell w) (w_lsn w) (w_val w) (nextFree s)) as [[t' nf]|e] eqn:Eti.
     + (* applied in the original replay *)
       assert (Hnfeq : nf = nextFree s /\ t_off t' = w_page w).
@@ -725,9 +725,9 @@ Proof.
         assert (Hfg : mapF sg (forest s) = mapF sg (mapF tg (forest s)))
           by (symmetry; apply (mix_absorb W fin o tg); [apply only_at_ins | exact EW]).
         destruct (N.leb (w_lsn w) (t_lsn (repl sg n))).
-        { eexists. split; [reflexivity|]. rewrite !bump_forest, !bump_nextFree. split; [rewrite Hg; exact Hfg | exact Hnf]. }
+        { eexists. split; [reflexivity|]. rewrite !pre_forest, !pre_nextFree. split; [rewrite Hg; exact Hfg | exact Hnf]. }
         rewrite (tree_insert_key_exists _ _ _ _ _ Hk).
-        eexists. split; [reflexivity|]. cbn [forest nextFree]. rewrite ?bump_forest, ?bump_nextFree.
+        eexists. split; [reflexivity|]. cbn [forest nextFree]. rewrite ?pre_forest, ?pre_nextFree.
         split; [rewrite ?Hg; exact Hfg | exact Hnf].
       * (* the rightmost leaf is the old version: redo *)
         assert (Hsgr : sg (rightmost n) = rightmost n) by (unfold sg, mixfun; fold o; rewrite EW; reflexivity).
@@ -754,17 +754,17 @@ Proof.
            apply in_map. apply rightmost_in_leaves.
     + (* the original replay tolerated "key exists" *)
       destruct e; try discriminate. inversion Hrep; subst s'. clear Hrep. cbn [forest nextFree] in *.
-      rewrite ?bump_forest, ?bump_nextFree in *.
+      rewrite ?pre_forest, ?pre_nextFree in *.
       pose proof (tree_insert_err_key _ _ _ _ _ Eti) as Hk.
       destruct (N.leb (w_lsn w) (t_lsn (repl sg n))).
-      { eexists. split; [reflexivity|]. rewrite !bump_forest, !bump_nextFree. auto. }
+      { eexists. split; [reflexivity|]. rewrite !pre_forest, !pre_nextFree. auto. }
       rewrite (tree_insert_key_exists (repl sg n) _ _ _ _ (key_exists_mix W fin (forest s) n _ Hfin Hmono Hnf0 Hk)).
-      eexists. split; [reflexivity|]. cbn [forest nextFree]. rewrite ?bump_forest, ?bump_nextFree. auto.
+      eexists. split; [reflexivity|]. cbn [forest nextFree]. rewrite ?pre_forest, ?pre_nextFree. auto.
   - (* update *)
     destruct n as [off ll d cells hl hr ls rs|]; [|discriminate].
     destruct (Nat.ltb MV (length (w_val w))) eqn:Emv; [discriminate|].
     destruct (existsb _ cells) eqn:Eex; [|discriminate].
-    inversion Hrep; subst s'. clear Hrep. cbn [set_forest forest nextFree] in *. rewrite ?bump_forest in *.
+    inversion Hrep; subst s'. clear Hrep. cbn [set_forest forest nextFree] in *. rewrite ?pre_forest in *.
     cbn [t_off] in Hp0. subst off.
     set (tg := touch_leaf (w_page w) (w_cell w) (w_lsn w) (fun x => mkLC (lc_key x) (lc_deleted x) (w_val w))) in *.
     rewrite (touch_forest_mapF _ _ _ _ _ Hn) in Hmono |- *. fold tg in Hmono |- *.
@@ -780,17 +780,17 @@ Proof.
       { unfold tg. rewrite touch_off. exact EW. }
       unfold tg in Hlsn at 1 2. rewrite (touch_leaf_at _ _ _ _ _ _ _ _ _ _ _ _ eq_refl) in Hlsn. cbn [t_lsn t_off] in Hlsn.
       destruct (N.leb_spec (w_lsn w) (t_lsn (fin (w_page w)))) as [_|Hbad]; [|lia].
-      eexists. split; [reflexivity|]. rewrite bump_forest, bump_nextFree. split; [|rewrite bump_nextFree; exact Hnf].
+      eexists. split; [reflexivity|]. rewrite pre_forest, pre_nextFree. split; [|rewrite pre_nextFree; exact Hnf].
       rewrite Hg. symmetry. apply (mix_absorb W fin (w_page w) tg); [apply only_at_touch | exact EW].
     + cbn [t_lsn] in Hns |- *. destruct (N.leb_spec (w_lsn w) ll) as [Hbad|_]; [lia|]. rewrite Eex.
-      eexists. split; [reflexivity|]. cbn [set_forest forest nextFree]. rewrite ?bump_forest, ?bump_nextFree.
+      eexists. split; [reflexivity|]. cbn [set_forest forest nextFree]. rewrite ?pre_forest, ?pre_nextFree.
       split; [|exact Hnf]. rewrite ?Hg.
       rewrite touch_forest_mapF by (rewrite mapF_offsets by exact Hlp; exact Hn). fold tg.
       apply (mix_commute W fin (w_page w) tg); [exact Hfin | apply only_at_touch | exact EW].
   - (* delete *)
     destruct n as [off ll d cells hl hr ls rs|]; [|discriminate].
     destruct (existsb _ cells) eqn:Eex; [|discriminate].
-    inversion Hrep; subst s'. clear Hrep. cbn [set_forest forest nextFree] in *. rewrite ?bump_forest in *.
+    inversion Hrep; subst s'. clear Hrep. cbn [set_forest forest nextFree] in *. rewrite ?pre_forest in *.
     cbn [t_off] in Hp0. subst off.
     set (tg := touch_leaf (w_page w) (w_cell w) (w_lsn w) (fun x => mkLC (lc_key x) true (lc_val x))) in *.
     rewrite (touch_forest_mapF _ _ _ _ _ Hn) in Hmono |- *. fold tg in Hmono |- *.
@@ -805,10 +805,10 @@ Proof.
       { unfold tg. rewrite touch_off. exact EW. }
       unfold tg in Hlsn at 1 2. rewrite (touch_leaf_at _ _ _ _ _ _ _ _ _ _ _ _ eq_refl) in Hlsn. cbn [t_lsn t_off] in Hlsn.
       destruct (N.leb_spec (w_lsn w) (t_lsn (fin (w_page w)))) as [_|Hbad]; [|lia].
-      eexists. split; [reflexivity|]. rewrite bump_forest, bump_nextFree. split; [|rewrite bump_nextFree; exact Hnf].
+      eexists. split; [reflexivity|]. rewrite pre_forest, pre_nextFree. split; [|rewrite pre_nextFree; exact Hnf].
       rewrite Hg. symmetry. apply (mix_absorb W fin (w_page w) tg); [apply only_at_touch | exact EW].
     + cbn [t_lsn] in Hns |- *. destruct (N.leb_spec (w_lsn w) ll) as [Hbad|_]; [lia|]. rewrite Eex.
-      eexists. split; [reflexivity|]. cbn [set_forest forest nextFree]. rewrite ?bump_forest, ?bump_nextFree.
+      eexists. split; [reflexivity|]. cbn [set_forest forest nextFree]. rewrite ?pre_forest, ?pre_nextFree.
       split; [|exact Hnf]. rewrite ?Hg.
       rewrite touch_forest_mapF by (rewrite mapF_offsets by exact Hlp; exact Hn). fold tg.
       apply (mix_commute W fin (w_page w) tg); [exact Hfin | apply only_at_touch | exact EW].
@@ -858,19 +858,19 @@ Lemma replay_one_inplace_shape s w s' :
   ptRoot s' = ptRoot s /\
   (forest s' = forest s \/ exists o tg, grows (w_lsn w) o tg /\ forest s' = mapF tg (forest s)).
 Proof.
-  intros Hn Hrep Hip. unfold replay_one in Hrep. rewrite bump_forest in Hrep.
+  intros Hn Hrep Hip. unfold replay_one in Hrep. fold (pre s w) in Hrep. rewrite pre_forest in Hrep.
   destruct (find_node (w_page w) (forest s)) as [[b n]|] eqn:Ef; [|discriminate].
   pose proof (find_node_sound _ _ _ _ Ef) as Hpi.
   destruct (N.leb (w_lsn w) (t_lsn n)).
-  { inversion Hrep; subst s'. rewrite bump_ptRoot, bump_forest. auto. }
+  { inversion Hrep; subst s'. rewrite pre_ptRoot, pre_forest. auto. }
   destruct (w_op w) eqn:Eop.
   - destruct b; [|discriminate]. cbn [negb] in Hrep.
     destruct (page_in_root (forest s) (w_page w) n Hn Hpi) as (Hnf0 & Hoffn & Hfr & Hndn).
-    rewrite bump_nextFree in Hrep.
+    rewrite pre_nextFree in Hrep.
     destruct (tree_insert ML MI PS MV n (w_cell w) (w_lsn w) (w_val w) (nextFree s)) as [[t' nf]|e] eqn:Eti.
     + destruct (tree_insert_free_le _ _ _ _ _ _ _ Hndn Eti) as [Hle Hlt].
       destruct (N.eqb_spec (t_off t') (w_page w)) as [E|E].
-      * inversion Hrep; subst s'. cbn [nextFree forest ptRoot] in *. subst nf. rewrite bump_ptRoot. split; [reflexivity|].
+      * inversion Hrep; subst s'. cbn [nextFree forest ptRoot] in *. subst nf. rewrite pre_ptRoot. split; [reflexivity|].
         destruct (tree_insert_inplace _ _ _ _ _ _ Hndn Eti) as (Et' & _).
         right. exists (t_off (rightmost n)), (ins_fun (w_cell w) (w_lsn w) (w_val w) (t_off (rightmost n))).
         split; [apply grows_ins|]. rewrite Et'. apply replace_root_mapF; [exact Hn | exact Hfr|].
@@ -883,16 +883,16 @@ Proof.
           pose proof (redo_root_move_free a b0 c d) as Hrf; destruct (redo_root_move a b0 c d) as [s2 [u|e|]] end;
           try discriminate.
         inversion Hrep; subst s2. cbn [fst nextFree] in Hrf. lia.
-    + destruct e; try discriminate. inversion Hrep; subst s'. cbn [forest ptRoot]. rewrite ?bump_forest, ?bump_ptRoot. auto.
+    + destruct e; try discriminate. inversion Hrep; subst s'. cbn [forest ptRoot]. rewrite ?pre_forest, ?pre_ptRoot. auto.
   - destruct n as [off ll d cells hl hr ls rs|]; [|discriminate].
     destruct (Nat.ltb MV (length (w_val w))); [discriminate|].
     destruct (existsb _ cells); [|discriminate].
-    inversion Hrep; subst s'. cbn [set_forest forest ptRoot]. rewrite ?bump_forest, ?bump_ptRoot. split; [reflexivity|].
+    inversion Hrep; subst s'. cbn [set_forest forest ptRoot]. rewrite ?pre_forest, ?pre_ptRoot. split; [reflexivity|].
     right. exists (w_page w), (touch_leaf (w_page w) (w_cell w) (w_lsn w) (fun x => mkLC (lc_key x) (lc_deleted x) (w_val w))).
     split; [apply grows_touch; reflexivity|]. apply touch_forest_mapF. exact Hn.
   - destruct n as [off ll d cells hl hr ls rs|]; [|discriminate].
     destruct (existsb _ cells); [|discriminate].
-    inversion Hrep; subst s'. cbn [set_forest forest ptRoot]. rewrite ?bump_forest, ?bump_ptRoot. split; [reflexivity|].
+    inversion Hrep; subst s'. cbn [set_forest forest ptRoot]. rewrite ?pre_forest, ?pre_ptRoot. split; [reflexivity|].
     right. exists (w_page w), (touch_leaf (w_page w) (w_cell w) (w_lsn w) (fun x => mkLC (lc_key x) true (lc_val x))).
     split; [apply grows_touch; reflexivity|]. apply touch_forest_mapF. exact Hn.
 Qed.
@@ -901,15 +901,15 @@ Qed.
 Lemma replay_one_free_mono s w s' :
   NoDup (all_offsets (forest s)) -> replay_one s w = RCont s' -> nextFree s <= nextFree s'.
 Proof.
-  intros Hn Hrep. unfold replay_one in Hrep. rewrite bump_forest in Hrep.
+  intros Hn Hrep. unfold replay_one in Hrep. fold (pre s w) in Hrep. rewrite pre_forest in Hrep.
   destruct (find_node (w_page w) (forest s)) as [[b n]|] eqn:Ef; [|discriminate].
   pose proof (find_node_sound _ _ _ _ Ef) as Hpi.
   destruct (N.leb (w_lsn w) (t_lsn n)).
-  { inversion Hrep; subst s'. rewrite ?bump_nextFree. lia. }
+  { inversion Hrep; subst s'. rewrite ?pre_nextFree. lia. }
   destruct (w_op w) eqn:Eop.
   - destruct b; [|discriminate]. cbn [negb] in Hrep.
     destruct (page_in_root (forest s) (w_page w) n Hn Hpi) as (Hnf0 & Hoffn & Hfr & Hndn).
-    rewrite bump_nextFree in Hrep.
+    rewrite pre_nextFree in Hrep.
     destruct (tree_insert ML MI PS MV n (w_cell w) (w_lsn w) (w_val w) (nextFree s)) as [[t' nf]|e] eqn:Eti.
     + destruct (tree_insert_free_le _ _ _ _ _ _ _ Hndn Eti) as [Hle _].
       destruct (N.eqb (t_off t') (w_page w)); [inversion Hrep; subst s'; exact Hle|].
@@ -917,14 +917,14 @@ Proof.
         pose proof (redo_root_move_free a b0 c d) as Hrf; destruct (redo_root_move a b0 c d) as [s2 [u|e|]] end;
         try discriminate.
       inversion Hrep; subst s2. cbn [fst nextFree] in Hrf. lia.
-    + destruct e; try discriminate. inversion Hrep; subst s'. cbn [nextFree]. rewrite ?bump_nextFree. lia.
+    + destruct e; try discriminate. inversion Hrep; subst s'. cbn [nextFree]. rewrite ?pre_nextFree. lia.
   - destruct n as [off ll d cells hl hr ls rs|]; [|discriminate].
     destruct (Nat.ltb MV (length (w_val w))); [discriminate|].
     destruct (existsb _ cells); [|discriminate].
-    inversion Hrep; subst s'. cbn [set_forest nextFree]. rewrite ?bump_nextFree. lia.
+    inversion Hrep; subst s'. cbn [set_forest nextFree]. rewrite ?pre_nextFree. lia.
   - destruct n as [off ll d cells hl hr ls rs|]; [|discriminate].
     destruct (existsb _ cells); [|discriminate].
-    inversion Hrep; subst s'. cbn [set_forest nextFree]. rewrite ?bump_nextFree. lia.
+    inversion Hrep; subst s'. cbn [set_forest nextFree]. rewrite ?pre_nextFree. lia.
 Qed.
 
 (* ====================== leaves only move forward ====================== *)
@@ -981,11 +981,11 @@ Qed.
 
 Lemma replay_one_free_le s0 w0 s2 : replay_one s0 w0 = RCont s2 -> nextFree s0 <= nextFree s2.
 Proof.
-  intros E2. unfold replay_one in E2.
-  destruct (find_node (w_page w0) (forest (bump_lsn s0 (w_lsn w0)))) as [[b n]|]; [|discriminate].
-  destruct (N.leb (w_lsn w0) (t_lsn n)); [inversion E2; subst; rewrite bump_nextFree; lia|].
+  intros E2. unfold replay_one in E2. fold (pre s0 w0) in E2.
+  destruct (find_node (w_page w0) (forest (pre s0 w0))) as [[b n]|]; [|discriminate].
+  destruct (N.leb (w_lsn w0) (t_lsn n)); [inversion E2; subst; rewrite pre_nextFree; lia|].
   destruct (w_op w0).
-  + destruct (negb b); [discriminate|]. rewrite bump_nextFree in E2.
+  + destruct (negb b); [discriminate|]. rewrite pre_nextFree in E2.
     destruct (tree_insert ML MI PS MV n (w_cell w0) (w_lsn w0) (w_val w0) (nextFree s0)) as [[t' nf]|e] eqn:Eti.
     * assert (Hle : nextFree s0 <= nf).
       { unfold tree_insert in Eti. destruct (key_exists _ n); [discriminate|].
@@ -997,11 +997,11 @@ Proof.
         pose proof (redo_root_move_free a b0 c d) as Hrf; destruct (redo_root_move a b0 c d) as [s3 [u|e|]] end;
         try discriminate.
       inversion E2; subst s3. cbn [fst nextFree] in Hrf. lia.
-    * destruct e; try discriminate. inversion E2; subst. cbn [nextFree]. rewrite ?bump_nextFree. lia.
+    * destruct e; try discriminate. inversion E2; subst. cbn [nextFree]. rewrite ?pre_nextFree. lia.
   + destruct n; [|discriminate]. destruct (Nat.ltb _ _); [discriminate|]. destruct (existsb _ _); [|discriminate].
-    inversion E2; subst. cbn [set_forest nextFree]. rewrite ?bump_nextFree. lia.
+    inversion E2; subst. cbn [set_forest nextFree]. rewrite ?pre_nextFree. lia.
   + destruct n; [|discriminate]. destruct (existsb _ _); [|discriminate].
-    inversion E2; subst. cbn [set_forest nextFree]. rewrite ?bump_nextFree. lia.
+    inversion E2; subst. cbn [set_forest nextFree]. rewrite ?pre_nextFree. lia.
 Qed.
 
 Lemma replay_free_le ws : forall s r, replay s ws = RCont r -> nextFree s <= nextFree r.
@@ -1199,23 +1199,23 @@ Qed.
 (* replay never touches the catalog root field *)
 Lemma replay_one_ptRoot s w s' : replay_one s w = RCont s' -> ptRoot s' = ptRoot s.
 Proof.
-  unfold replay_one.
-  destruct (find_node (w_page w) (forest (bump_lsn s (w_lsn w)))) as [[b n]|]; [|discriminate].
-  destruct (N.leb (w_lsn w) (t_lsn n)); [intros H; inversion H; subst; apply bump_ptRoot|].
+  unfold replay_one. fold (pre s w).
+  destruct (find_node (w_page w) (forest (pre s w))) as [[b n]|]; [|discriminate].
+  destruct (N.leb (w_lsn w) (t_lsn n)); [intros H; inversion H; subst; apply pre_ptRoot|].
   destruct (w_op w).
   - destruct (negb b); [discriminate|].
     destruct (tree_insert ML MI PS MV n (w_cell w) (w_lsn w) (w_val w) _) as [[t' nf]|e].
-    + destruct (N.eqb (t_off t') (w_page w)); [intros H; inversion H; subst; cbn [ptRoot]; apply bump_ptRoot|].
+    + destruct (N.eqb (t_off t') (w_page w)); [intros H; inversion H; subst; cbn [ptRoot]; apply pre_ptRoot|].
       match goal with |- context [redo_root_move ?a ?b0 ?c ?d] =>
         assert (Hp : ptRoot (fst (redo_root_move a b0 c d)) = ptRoot a)
           by (unfold redo_root_move; repeat (break_match; cbn [fst]; try reflexivity));
         destruct (redo_root_move a b0 c d) as [s2 [u|e|]] end; try discriminate.
-      intros H; inversion H; subst. cbn [fst ptRoot] in Hp. rewrite Hp. apply bump_ptRoot.
-    + destruct e; try discriminate. intros H; inversion H; subst. cbn [ptRoot]. apply bump_ptRoot.
+      intros H; inversion H; subst. cbn [fst ptRoot] in Hp. rewrite Hp. apply pre_ptRoot.
+    + destruct e; try discriminate. intros H; inversion H; subst. cbn [ptRoot]. apply pre_ptRoot.
   - destruct n; [|discriminate]. destruct (Nat.ltb _ _); [discriminate|]. destruct (existsb _ _); [|discriminate].
-    intros H; inversion H; subst. cbn [set_forest ptRoot]. apply bump_ptRoot.
+    intros H; inversion H; subst. cbn [set_forest ptRoot]. apply pre_ptRoot.
   - destruct n; [|discriminate]. destruct (existsb _ _); [|discriminate].
-    intros H; inversion H; subst. cbn [set_forest ptRoot]. apply bump_ptRoot.
+    intros H; inversion H; subst. cbn [set_forest ptRoot]. apply pre_ptRoot.
 Qed.
 
 Lemma replay_ptRoot ws : forall s r, replay s ws = RCont r -> ptRoot r = ptRoot s.
@@ -1232,9 +1232,9 @@ Lemma replay_one_inert_mix W fin s d w :
   forest d = mapF (mixfun W fin) (forest s) -> nextLSN d = nextLSN s -> lastKey d = lastKey s ->
   replay_one d w = RCont d.
 Proof.
-  intros Hfin [[Hw Hn Hk] _] Hmono (Hlt & b & n & Hpi & Hd) Hf Hnl Hlk.
+  intros Hfin [[Hw Hn Hk] _] Hmono (Hlt & Hkb & b & n & Hpi & Hd) Hf Hnl Hlk.
   pose proof (lp_mix W fin Hfin) as Hlp. set (sg := mixfun W fin) in *.
-  unfold replay_one. rewrite (bump_id d (w_lsn w)) by (rewrite Hnl; exact Hlt).
+  unfold replay_one. fold (pre d w). rewrite (pre_id d w) by (rewrite ?Hnl, ?Hlk; assumption).
   rewrite Hf, (find_node_complete (mapF sg (forest s)) (w_page w) b (repl sg n)).
   2:{ rewrite mapF_offsets by exact Hlp. exact Hn. }
   2:{ apply page_in_mapF; assumption. }
